@@ -6,7 +6,7 @@
     [model_ok]: the model's output equals the observation; [spec_ok]: the theorems' statements
     evaluated on the observation alone. *)
 From Coq Require Import List ZArith Bool Lia.
-From CM Require Import Lib.Str Lib.Wire Retry.Model.
+From CM Require Import Lib.Str Lib.Wire Gen.Consts Retry.Model.
 Import ListNotations.
 Open Scope Z_scope.
 
@@ -18,7 +18,7 @@ Definition prompt : Z := 1500000000.     (* 1.5 s *)
 
 Record oatt := OAtt { o_no : Z; o_start : Z; o_end : Z; o_out : Z }.   (* outcome: 0 ok 1 plain 2 noretry 3 canceled *)
 Record rcase := RCase {
-  r_iv : list Z; r_maxd : Z; r_cancel : option Z; r_pick0 : bool;
+  r_iv : list Z; r_maxd : Z; r_shrunk : bool; r_cancel : option Z; r_pick0 : bool;
   r_atts : list oatt; r_res : Z; r_te : Z
 }.
 
@@ -53,14 +53,26 @@ Definition near_tie (c : rcase) : bool :=
   | None => false
   end.
 
+(** an attempt that ends within the margin of the horizon: "giving up" or "will retry" may
+    both be what the code decided (it reads the clock again after the call) *)
+Definition near_horizon (c : rcase) : bool :=
+  existsb (fun a => Z.abs (o_end a - r_maxd c) <? margin) (r_atts c).
+
+(** observed result 7 = an error that is neither a cancellation nor ErrNoRetry: what the loop
+    returns when it gives up at the horizon (model results 4, 5) *)
+Definition res_match (r : result) (obs : Z) : bool :=
+  (result_code r =? obs) || ((obs =? 7) && ((result_code r =? 4) || (result_code r =? 5))).
+
 Definition retry_model_ok (c : rcase) : bool :=
   let calls := calls_of (r_iv c) 0 0 (r_atts c) in
   let calls' := if r_res c =? 3 then calls ++ [Call OOk 0 0] else calls in
   let '(atts, r, te) := do_with_retry (r_iv c) (r_maxd c) (r_cancel c) (r_pick0 c) calls' in
-  near_tie c ||
+  (* the horizon is the one in the source unless the harness shrank it *)
+  (r_shrunk c || (r_maxd c =? max_retry_duration)) &&
+  (near_tie c || near_horizon c ||
   (forallb (fun k => (0 <=? c_late k) && (c_late k <=? late_bound)) calls &&
-   atts_eqb atts (r_atts c) && (result_code r =? r_res c) &&
-   (te <=? r_te c) && (r_te c <=? te + late_bound)).
+   atts_eqb atts (r_atts c) && res_match r (r_res c) &&
+   (te <=? r_te c) && (r_te c <=? te + late_bound))).
 
 Fixpoint pauses_ok (iv : list Z) (k : nat) (prev_end : Z) (l : list oatt) : bool :=
   match l with
@@ -84,7 +96,10 @@ Definition retry_spec_ok (c : rcase) : bool :=
    else if r_res c =? 1 then last_out l =? 3
    else if r_res c =? 2 then last_out l =? 2
    else if r_res c =? 3 then all_plain l && (match r_cancel c with Some _ => true | None => false end)
-   else if (r_res c =? 4) || (r_res c =? 5) then all_plain l && (r_maxd c <=? r_te c)
+   (* an error that does not end the retries is returned only when the loop gives up at the
+      horizon: the last attempt ended after it *)
+   else if (r_res c =? 4) || (r_res c =? 5) || (r_res c =? 7) then
+     all_plain l && negb (length l =? 0)%nat && (r_maxd c - margin <=? last_oend l)
    else false) &&
   (* cancellation is prompt *)
   match r_cancel c with
@@ -195,13 +210,74 @@ Fixpoint jobs_spec (all : list jop) (maxw : nat) (prev : jobs_obs) (acc : list n
 Definition jobs_spec_ok (c : jcase) : bool :=
   (1 <=? jc_max c)%nat && jobs_spec (jc_ops c) (jc_max c) (JObs [] [] 0 [] []) [] (jc_ops c).
 
+(** * concurrent submissions: [pre] jobs submitted one after the other, then a burst of Submit
+      calls from as many goroutines at once (no job returns meanwhile).  The order in which
+      the manager's mutex admitted the burst is read off the state afterwards: the jobs that
+      started are a prefix of the acceptance order, the queue is the rest in order; a
+      duplicate is a no-op wherever it falls after its twin.  [jb_subs]: (id, name, accepted)
+      in that order, duplicates last; then the snapshot at quiescence and the ids that had
+      started once everything was drained. *)
+
+Record jbsub := JBSub { jb_id : nat; jb_name : str; jb_acc : bool }.
+Record jbcase := JBCase { jb_max : nat; jb_subs : list jbsub; jb_obs : jobs_obs; jb_final_started : list nat }.
+
+Fixpoint jb_replay (maxw : nat) (s : jm) (l : list jbsub) : option jm :=
+  match l with
+  | [] => Some s
+  | x :: r =>
+      match jstep maxw s (Submit (Job (jb_id x) (jb_name x))) with
+      | Some s' =>
+          (* the model must agree on whether this submission was a duplicate *)
+          let dup := negb (is_empty_name (jb_name x)) && has_name (jb_name x) (names s) in
+          if Bool.eqb dup (negb (jb_acc x))
+          then jb_replay maxw (settle (S (length (queue s') + idle s')) maxw s') r
+          else None
+      | None => None
+      end
+  end.
+
+Definition jb_model_ok (c : jbcase) : bool :=
+  match jb_replay (jb_max c) jinit (jb_subs c) with
+  | Some s => jobs_eq s (jb_obs c) &&
+              nset_eqb (jb_final_started c) (map jb_id (filter jb_acc (jb_subs c)))
+  | None => false
+  end.
+
+Definition jb_spec_ok (c : jbcase) : bool :=
+  let ob := jb_obs c in
+  let acc := filter jb_acc (jb_subs c) in
+  let acc_names := nonempty_names (map jb_name acc) in
+  let all_names := nonempty_names (map jb_name (jb_subs c)) in
+  (1 <=? jb_max c)%nat &&
+  (* at most one job per name, and every name that was submitted is held by exactly one job *)
+  nodup_strs acc_names && forallb (fun n => has_name n acc_names) all_names &&
+  set_eqb (jo_names ob) acc_names &&
+  (* unnamed jobs are never dropped *)
+  forallb (fun x => jb_acc x || negb (is_empty_name (jb_name x))) (jb_subs c) &&
+  (* every accepted job is running or queued, once; workers: one per running job, as many as
+     the limit allows *)
+  nodup_nats (jo_running ob) && forallb (fun i => nmem i (map jb_id acc)) (jo_running ob) &&
+  (length (jo_running ob) + length (jo_queue ob) =? length acc)%nat &&
+  (jo_active ob =? length (jo_running ob))%nat &&
+  (length (jo_running ob) =? Nat.min (jb_max c) (length acc))%nat &&
+  (* in the end every accepted job ran exactly once, and nothing else *)
+  nodup_nats (jb_final_started c) && nset_eqb (jb_final_started c) (map jb_id acc).
+
 (** * CA selection *)
 
-Record cacase := CACase { ca_ca : str; ca_test : str; ca_has_scheme : bool;
+Record cacase := CACase { ca_given : str; ca_given_test : str;   (* the template given to NewACMEIssuer *)
+                          ca_ca : str; ca_test : str; ca_has_scheme : bool;
                           ca_dir0 : str; ca_dir1 : str; ca_using0 : bool; ca_using1 : bool }.
 
+(** NewACMEIssuer: an empty CA is the default CA; an empty TestCA is the default test CA only
+    when the CA is the default one *)
+Definition effective_cas (ca test : str) : str * str :=
+  let ca' := if is_empty_name ca then default_acme_ca else ca in
+  (ca', if is_empty_name test && str_eqb ca' default_acme_ca then default_acme_test_ca else test).
+
 Definition ca_model_ok (c : cacase) : bool :=
-  let norm := fun _ : str => ca_dir0 c in      (* newBasicACMEClient's URL rule, as observed *)
+  (let (a, t) := effective_cas (ca_given c) (ca_given_test c) in str_eqb a (ca_ca c) && str_eqb t (ca_test c)) &&
+  let norm := norm_url ca_scheme_sep ca_default_scheme in   (* secureCAURL's scheme rule, literals from the source *)
   str_eqb (directory_for norm (ca_ca c) (ca_test c) true) (ca_dir1 c) &&
   str_eqb (directory_for norm (ca_ca c) (ca_test c) false) (ca_dir0 c) &&
   Bool.eqb (using_test_ca (ca_test c) (ca_dir1 c)) (ca_using1 c) &&
@@ -216,15 +292,113 @@ Definition ca_spec_ok (c : cacase) : bool :=
   (* retries are tried against the test CA first when one is configured *)
   (is_empty_name (ca_test c) || str_eqb (ca_dir1 c) (ca_test c)).
 
+(** * end-to-end cases: the real ACMEIssuer against two mock ACME CAs (production, test)
+
+    Observed at the CAs and by signature checks, not through certmagic: for every call of Issue
+    the attempt number it was given, the orders the CAs received during the call (directory URL
+    of the CA that got it, scripted outcome: 0 certificate, 1 HTTP 429, 2 other refusal), the
+    class of the result, and which CA's key signed the certificate it returned; at the end what
+    the asynchronous obtain returned and who signed the certificate in storage / served. *)
+
+Record eord := EOrd { eo_dir : str; eo_out : Z }.
+Record eatt := EAtt { e_no : Z; e_orders : list eord; e_res : Z; e_from : Z }.
+Record ecase := ECase {
+  e_async : bool;
+  e_ca : str; e_test : str;            (* ACMEIssuer.CA / TestCA *)
+  e_prod_url : str; e_test_url : str;  (* directory URLs of the two mock CAs *)
+  e_atts : list eatt;
+  e_final : Z;                         (* 0 nil, 1 other error, 2 ErrNoRetry *)
+  e_stored : Z; e_served : Z           (* signer: 0 production CA, 1 test CA, -1 no certificate *)
+}.
+
+Definition e_norm : str -> str := norm_url ca_scheme_sep ca_default_scheme.
+Definition out_of (z : Z) : order_outcome := if z =? 0 then OrdOk else if z =? 1 then OrdRateLimited else OrdFail.
+Definition res_code (r : issue_result) : Z := match r with ICert _ => 0 | IErr => 1 | IErrNoRetry => 2 end.
+Definition signer_code (c : ecase) (r : issue_result) : Z :=
+  match r with
+  | ICert d => if str_eqb d (e_prod_url c) then 0 else if str_eqb d (e_test_url c) then 1 else 7
+  | _ => -1
+  end.
+
+Definition eatt_model_ok (c : ecase) (a : eatt) : bool :=
+  let '(ds, r) := issue e_norm (e_ca c) (e_test c) (e_no a) (map (fun o => out_of (eo_out o)) (e_orders a)) in
+  strs_eqb ds (map eo_dir (e_orders a)) && (res_code r =? e_res a) && (signer_code c r =? e_from a).
+
+(** the retry loop around Issue: attempt numbers count up from [k]; it goes on exactly while
+    the result is a retryable error; returns the last attempt *)
+Fixpoint echain (k : Z) (l : list eatt) : bool * option eatt :=
+  match l with
+  | [] => (true, None)
+  | [a] => (e_no a =? k, Some a)
+  | a :: r => let (ok, last) := echain (k + 1) r in ((e_no a =? k) && (e_res a =? 1) && ok, last)
+  end.
+
+Definition e2e_model_ok (c : ecase) : bool :=
+  forallb (eatt_model_ok c) (e_atts c) &&
+  (let k0 := match e_atts c with a :: _ => if e_async c then 0 else e_no a | [] => 0 end in
+   let (ok, last) := echain k0 (e_atts c) in
+   ok &&
+   match last with
+   | Some a =>
+       (* Issue called directly: one call; its result is the case's result *)
+       (e_async c || (length (e_atts c) =? 1)%nat) &&
+       (if e_res a =? 0 then (e_final c =? 0) && (e_stored c =? e_from a) && (e_served c =? e_from a)
+        else if e_res a =? 2 then (e_final c =? 2) && (e_stored c =? -1) && (e_served c =? -1)
+        else (* a retryable error can only be the end when Issue was called directly *)
+             negb (e_async c) && (e_final c =? 1) && (e_stored c =? -1))
+   | None => false
+   end).
+
+(** the property on the observation alone *)
+Fixpoint test_ok_followed (c : ecase) (l : list eord) : bool :=
+  match l with
+  | [] => true
+  | o :: r =>
+      (if str_eqb (eo_dir o) (e_test_url c) && (eo_out o =? 0)
+       then match r with o' :: _ => str_eqb (eo_dir o') (e_prod_url c) | [] => false end
+       else true) && test_ok_followed c r
+  end.
+
+Fixpoint enumbers (k : Z) (l : list eatt) : bool :=
+  match l with [] => true | a :: r => (e_no a =? k) && enumbers (k + 1) r end.
+
+Definition e2e_spec_ok (c : ecase) : bool :=
+  let distinct := negb (is_empty_name (e_test c)) && negb (str_eqb (e_ca c) (e_test c)) in
+  (* the harness configured the production CA as CA and, when distinct, the test CA as TestCA *)
+  str_eqb (e_ca c) (e_prod_url c) && (negb distinct || str_eqb (e_test c) (e_test_url c)) &&
+  (* never a certificate of the test CA: not returned, not stored, not served *)
+  forallb (fun a => negb (e_from a =? 1)) (e_atts c) && negb (e_stored c =? 1) && negb (e_served c =? 1) &&
+  (negb distinct ||
+   forallb (fun a =>
+     (* success on the test CA is followed by a production order in the same call *)
+     test_ok_followed c (e_orders a) &&
+     (* a retry goes to the test CA first, the first attempt to production *)
+     match e_orders a with
+     | o :: _ => str_eqb (eo_dir o) (if 0 <? e_no a then e_test_url c else e_prod_url c)
+     | [] => true
+     end &&
+     (* a certificate is returned only after a successful production order *)
+     Bool.eqb (e_res a =? 0) (existsb (fun o => str_eqb (eo_dir o) (e_prod_url c) && (eo_out o =? 0)) (e_orders a))) (e_atts c)) &&
+  (distinct || forallb (fun a => forallb (fun o => str_eqb (eo_dir o) (e_prod_url c)) (e_orders a)) (e_atts c)) &&
+  (* asynchronous: the attempt number goes up by one per attempt; retried until success or
+     a non-retryable error; nil only with a production certificate stored and served *)
+  (negb (e_async c) ||
+   (enumbers 0 (e_atts c) && forallb (fun a => e_res a =? 1) (removelast (e_atts c)) &&
+    match rev (e_atts c) with
+    | a :: _ => (e_res a =? e_final c) && negb (e_res a =? 1)
+    | [] => false
+    end &&
+    Bool.eqb (e_final c =? 0) (e_stored c =? 0) && Bool.eqb (e_final c =? 0) (e_served c =? 0))).
+
 (** * wire *)
 
-Inductive tcase := TRetry (c : rcase) | TJobs (c : jcase) | TCA (c : cacase).
+Inductive tcase := TRetry (c : rcase) | TJobs (c : jcase) | TCA (c : cacase) | TE2E (c : ecase) | TJBurst (c : jbcase).
 
 Definition get_zlist : dec (list Z) := get_list get_z.
 Definition get_oatt : dec oatt := (n <- get_z ;; s <- get_z ;; e <- get_z ;; o <- get_z ;; ret (OAtt n s e o))%Z.
 Definition get_rcase : dec rcase :=
-  (iv <- get_zlist ;; m <- get_z ;; cn <- get_opt get_z ;; p <- get_bool ;; l <- get_list get_oatt ;;
-   r <- get_z ;; te <- get_z ;; ret (RCase iv m cn p l r te))%Z.
+  (iv <- get_zlist ;; m <- get_z ;; sh <- get_bool ;; cn <- get_opt get_z ;; p <- get_bool ;; l <- get_list get_oatt ;;
+   r <- get_z ;; te <- get_z ;; ret (RCase iv m sh cn p l r te))%Z.
 Definition get_jobs_obs : dec jobs_obs :=
   (q <- get_list get_str ;; n <- get_list get_str ;; a <- get_nat ;; r <- get_list get_nat ;; st <- get_list get_nat ;;
    ret (JObs q n a r st))%Z.
@@ -232,19 +406,31 @@ Definition get_jop : dec jop :=
   (t <- get_z ;; i <- get_nat ;; n <- get_str ;; k <- get_z ;; o <- get_jobs_obs ;; ret (JOp t i n k o))%Z.
 Definition get_jcase : dec jcase := (m <- get_nat ;; l <- get_list get_jop ;; ret (JCase m l))%Z.
 Definition get_cacase : dec cacase :=
-  (a <- get_str ;; t <- get_str ;; h <- get_bool ;; d0 <- get_str ;; d1 <- get_str ;; u0 <- get_bool ;; u1 <- get_bool ;;
-   ret (CACase a t h d0 d1 u0 u1))%Z.
+  (ga <- get_str ;; gt <- get_str ;; a <- get_str ;; t <- get_str ;; h <- get_bool ;; d0 <- get_str ;; d1 <- get_str ;;
+   u0 <- get_bool ;; u1 <- get_bool ;; ret (CACase ga gt a t h d0 d1 u0 u1))%Z.
+Definition get_eord : dec eord := (d <- get_str ;; o <- get_z ;; ret (EOrd d o))%Z.
+Definition get_eatt : dec eatt := (n <- get_z ;; l <- get_list get_eord ;; r <- get_z ;; f <- get_z ;; ret (EAtt n l r f))%Z.
+Definition get_ecase : dec ecase :=
+  (m <- get_z ;; a <- get_str ;; t <- get_str ;; pu <- get_str ;; tu <- get_str ;; l <- get_list get_eatt ;;
+   f <- get_z ;; st <- get_z ;; sv <- get_z ;; ret (ECase (m =? 1) a t pu tu l f st sv))%Z.
+Definition get_jbsub : dec jbsub := (i <- get_nat ;; n <- get_str ;; a <- get_bool ;; ret (JBSub i n a))%Z.
+Definition get_jbcase : dec jbcase :=
+  (m <- get_nat ;; l <- get_list get_jbsub ;; o <- get_jobs_obs ;; f <- get_list get_nat ;; ret (JBCase m l o f))%Z.
 Definition get_case : dec tcase :=
   (k <- get_z ;;
    if (k =? 0) || (k =? 1) then (c <- get_rcase ;; ret (TRetry c))
    else if k =? 2 then (c <- get_jcase ;; ret (TJobs c))
-   else (c <- get_cacase ;; ret (TCA c)))%Z.
+   else if k =? 3 then (c <- get_cacase ;; ret (TCA c))
+   else if k =? 4 then (c <- get_ecase ;; ret (TE2E c))
+   else (c <- get_jbcase ;; ret (TJBurst c)))%Z.
 
 Definition check_line (l : list Z) : Z :=
   match decode get_case l with
   | Some (TRetry c) => code (retry_model_ok c) (retry_spec_ok c)
   | Some (TJobs c) => code (jobs_model_ok c) (jobs_spec_ok c)
   | Some (TCA c) => code (ca_model_ok c) (ca_spec_ok c)
+  | Some (TE2E c) => code (e2e_model_ok c) (e2e_spec_ok c)
+  | Some (TJBurst c) => code (jb_model_ok c) (jb_spec_ok c)
   | None => code_decode_error
   end.
 
@@ -258,5 +444,7 @@ Definition explain_line (l : list Z) : list Z :=
       [result_code r; te; Z.of_nat (length atts)]
   | Some (TJobs c) => [if jobs_model_ok c then 1 else 0]
   | Some (TCA c) => [if ca_model_ok c then 1 else 0]
+  | Some (TE2E c) => map (fun a => if eatt_model_ok c a then 1 else 0) (e_atts c)
+  | Some (TJBurst c) => [if jb_model_ok c then 1 else 0]
   | None => []
   end.
